@@ -116,7 +116,7 @@ SIM = {
     },
     "C04": {
         "props": ["C04"],
-        "extra": ["early_result", "sp_conversion", "bucket_corners"],
+        "extra": ["early_result", "sp_conversion", "bucket_corners", "inflight_fill"],
         "designs": simcore_designs(["Inv_C04_Conserved", "Inv_C04_CompleteIff"], ["Prop_C04_MatchedMonotone"])
         + simrun_designs(["Inv_C04_Conserved", "Inv_C04_CompleteIff"], ["Prop_C04_MatchedMonotone"]),
         "profiles": LIFECYCLE_PROFILES + [{"p_partial_cancel": 0.8, "p_big_reduction": 0.5, "p_removal": 0.12, "p_cancel": 0.5}],
@@ -152,7 +152,7 @@ SIM = {
             {"module": "MC_SimMatch", "constants": MATCH_GROUP_Q, "invariants": ["Inv_C06_Group"], "must_reach": ["Reach_GroupTwoFilled"]},
             {"module": "MC_SimMatch", "constants": MATCH_GROUP_T, "invariants": ["Inv_C06_Group"], "tier": "thorough", "timeout": 1500},
         ],
-        "extra": ["place_grid"],
+        "extra": ["place_grid", "inflight_fill"],
         "profiles": MATCH_PROFILES,
         "n_quick": 210, "n_thorough": 6000,
         "rule": "design: all traded ladders over 3 prices x {0,2,4} for two rounds on a lone order after every placement and on every group of <=2 (thorough: 3) resting orders; real code: fills judged per update against a ledger of traded volume rebuilt from the raw scenario lines",
@@ -160,6 +160,7 @@ SIM = {
     },
     "C07": {
         "props": ["C07"],
+        "extra": ["inflight_fill"],
         "designs": simcore_designs(["Inv_C07_NoDueLeft"]) + simrun_designs(["Inv_C07_NoDueLeft"]),
         "profiles": [{"p_raise": 0.06, "gaps": [1, 60, 119, 120, 121, 149, 150, 151, 169, 170, 171, 279, 280, 281, 1000, 1119, 1120, 1121, 5000], "p_inplay": 0.25, "bet_delays": [1, 2, 5, 12], "p_action": 0.7, "p_cancel": 0.35},
                      {"n_markets": (2, 2), "event_processing": True, "p_inplay": 0.2, "p_action": 0.7},
